@@ -43,6 +43,12 @@ def _hierarchy():
     return [Agent, A, C, S, G, E]
 
 
+def _factory_made():
+    class Worker(Agent):
+        pass
+    return Worker
+
+
 def _len(cls):
     # len(cls) dispatches to the metaclass's __len__; CrossHair's patched len() looks __len__ up on the class itself
     # and finds Agent.__len__ (instance method) - call what real Python calls
@@ -169,7 +175,15 @@ def class_component_history(c0: int, t0: int, c1: int, t1: int, c2: int, t2: int
     hx.begin()
     ops = hx.P['ops']
     classes = _hierarchy()
+    if hx.P.get('twins'):
+        # two distinct live classes produced by the same class statement (a class factory called twice): same module, same
+        # qualified name - still two classes
+        classes[1], classes[2] = _factory_made(), _factory_made()
     Agent._components.clear()
+    for c_ in classes:
+        # every path starts from empty stores whatever earlier paths of this process left behind (the analysis re-runs
+        # the class statements of this module once per path; a replay runs them once)
+        c_._components.clear()
     m = Model(logger=NULL_LOGGER)
     ref = [dict() for _ in classes]
     cs, ts = [c0, c1, c2], [t0, t1, t2]
@@ -274,6 +288,48 @@ def default_tag(tA: int, tC: int, tS: int, tE: int, which: int, explicit: bool, 
     return hx.end(True)
 
 
+def world_default_tag(tL: int, tG: int, tD: int, tS: int, which: int) -> bool:
+    """
+    pre: 0 <= which < 4
+    post: _
+    """
+    # environments are agents too: a world created without an explicit tag carries the current default of ITS class
+    from vf.stubs import patched_pandas
+    import ECAgent.Environments as Env
+    hx.begin()
+
+    class River(Env.LineWorld):
+        pass
+
+    class Field(Env.GridWorld):
+        pass
+
+    class Box(Env.DiscreteWorld):
+        pass
+
+    class Sea(Env.SpaceWorld):
+        pass
+    River.tag, Field.tag, Box.tag, Sea.tag = tL, tG, tD, tS
+    m = Model(logger=NULL_LOGGER)
+    with patched_pandas():
+        if which == 0:
+            inst, want = River(m, 3), tL
+        elif which == 1:
+            inst, want = Field(m, 2, 2), tG
+        elif which == 2:
+            inst, want = Box(m, 2, 1, 2), tD
+        else:
+            inst, want = Sea(m, 4, 4, 4), tS
+    hx.reach('built')
+    if inst.tag != want:
+        return hx.end(hx.fail("world created without a tag does not carry its class's default tag", cls=type(inst).__name__,
+                              got=inst.tag, want=want))
+    for base in (Env.LineWorld, Env.GridWorld, Env.DiscreteWorld, Env.SpaceWorld, Environment, Agent):
+        if base.tag != 0:
+            return hx.end(hx.fail("a library class's default tag changed", cls=base.__name__, got=base.tag))
+    return hx.end(True)
+
+
 BOUNDS = {"classes": "Agent, A(Agent), C(A), S(Agent), G(C), E(Environment)", "class component types": 2,
           "operations": "one step from an arbitrary per-class component state / one instantiation after 4 tag assignments",
           "tags": "all ints"}
@@ -291,9 +347,12 @@ def obligations(tier):
           labels_for=lambda p: ("applied", "duplicate_rejected") if p["op"] == "attach" else ("applied", "absent_rejected"),
           timeout=900, encoded=enc),
         X("class_component_history", class_component_history,
-          parts=[{"ops": o} for o in (("aa", "ad", "a") if tier == "quick" else ("aa", "ad", "aaa", "aad", "ada", "add"))],
+          parts=[{"ops": o} for o in (("aa", "ad", "a") if tier == "quick" else ("aa", "ad", "aaa", "aad", "ada", "add"))] +
+          [{"ops": o, "twins": True} for o in ("aa", "ad")],
           labels=("attached", "duplicate_rejected", "detached", "absent_rejected"),
           labels_for=lambda p: {"a": ("attached",), "aa": ("attached", "duplicate_rejected"), "ad": ("detached", "absent_rejected")}.get(p["ops"], ("attached",)),
           timeout=900, encoded=enc, bounds={"history": "<= %d attach/detach from fresh classes" % (2 if tier == "quick" else 3)}),
         X("default_tag", default_tag, labels=("explicit", "class_default"), timeout=300, encoded=enc),
+        X("world_default_tag", world_default_tag, labels=("built",), timeout=300, encoded=(Agent.__init__, Environment.__init__),
+          bounds={"classes": "user subclasses of LineWorld, GridWorld, DiscreteWorld, SpaceWorld", "tags": "all ints"}),
     ]
